@@ -251,18 +251,19 @@ def model_check_cache(ev, vd, tier, work):
     for label, over, cfgs, tmo in runs:
         cfg = mc_cfg(work, hashlib.sha1(label.encode()).hexdigest()[:8], over, cfgs)
         jobs.append((label, cfg, dict(workers=2, timeout=tmo, xmx="3g")))
-    nsim, depth = (1200, 40) if tier == "quick" else (60000, 50)
+    nsim, depth = (40, 40) if tier == "quick" else (600, 50)      # per worker; measured: ~0.4 behaviours/s/worker at the real constants
+    simw = 4 if tier == "quick" else 8
     simcfg = mc_cfg(work, "sim", dict(K=8, D=4, NG=16, BlkSizes="{1,2}", NegSizes="{1,3,5}", ByteLens="{1,2}", MaxW=4, MaxFaults=2,
                                       Toggle="TRUE", ZeroFail="TRUE"), "CfgAll", simulate=True)
-    jobs.append(("simulation at the real constants K=8 D=4 NG=16, all configurations: %d behaviours of depth %d" % (nsim, depth), simcfg,
-                 dict(workers=2, timeout=2400, simulate=nsim, depth=depth, xmx="3g")))
+    jobs.append(("simulation at the real constants K=8 D=4 NG=16, all configurations: %d behaviours of depth %d" % (nsim * simw, depth), simcfg,
+                 dict(workers=simw, timeout=3000, simulate=nsim, depth=depth, xmx="3g")))
     guards = []
     for dev in ("DevInvalSkipsClean", "DevZeroBypassesCache"):
         guards.append((dev, mc_cfg(work, "lit_" + dev, {dev: "TRUE", "NG": 4}), dict(workers=1, timeout=300, xmx="2g")))
     d3 = dict(small_f); d3["DevWriteEvictErrLost"] = "TRUE"
     guards.append(("DevWriteEvictErrLost", mc_cfg(work, "lit_evict", d3, "CfgFault"), dict(workers=1, timeout=300, xmx="2g")))
     guards.append(("TogglePre", mc_cfg(work, "notogglepre", dict(NG=4, Toggle="TRUE", TogglePre="FALSE")), dict(workers=1, timeout=300, xmx="2g")))
-    with cf.ThreadPoolExecutor(max_workers=2) as ex:
+    with cf.ThreadPoolExecutor(max_workers=4) as ex:
         futs = [(label, cfg, ex.submit(T.tlc, mod, cfg, **kw)) for label, cfg, kw in jobs]
         gfuts = [(dev, ex.submit(T.tlc, mod, cfg, **kw)) for dev, cfg, kw in guards]
         for label, cfg, fu in futs:
@@ -421,7 +422,7 @@ def model_check_threads(ev, vd, tier, work):
     jobs.append(("partition formula (incl. flex_bg rounding and fall-backs) over %d parameter tuples" % (len(pg) * len(pn) * len(pf) * 2),
                  bl_cfg(work, "part", "PartOnly", part, ["PartitionExact"]), dict(workers=2, timeout=1800, xmx="3g")))
     nolock = dict(base); nolock["UseLock"] = "FALSE"
-    with cf.ThreadPoolExecutor(max_workers=2) as ex:
+    with cf.ThreadPoolExecutor(max_workers=4) as ex:
         futs = [(label, cfg, ex.submit(T.tlc, mod, cfg, **kw)) for label, cfg, kw in jobs]
         gf = ex.submit(T.tlc, mod, bl_cfg(work, "nolock", "Spec", nolock, BL_INV), workers=1, timeout=600, xmx="2g")
         for label, cfg, fu in futs:
